@@ -93,6 +93,17 @@ builtins._symx_action = _action
 
 
 def reset(ctx, value_specs):
+    # Harness hygiene for a tracing artifact: suspended behaviour generators abandoned by an earlier path are
+    # normally closed (by reference counting) while their simulation is being torn down, i.e. BEFORE
+    # veneer.endSimulation resets currentBehavior; under CrossHair's tracer they may be closed later, and the
+    # `with executeInBehavior(...)` blocks they were suspended in then restore a stale currentBehavior.
+    import gc
+
+    import scenic.syntax.veneer as _veneer
+
+    gc.collect()
+    if _veneer.currentSimulation is None:
+        _veneer.currentBehavior = None
     del LOG[:]
     del DRAWN[:]
     TABLE.clear()
@@ -555,6 +566,11 @@ class Ref:
                         term = "terminate" if s.kind == "scenario" else "terminate simulation"
                 if term is None and P.get("terminate_when") and self.cond(P["terminate_when"]):
                     term = "terminate when"
+            # a top-level scenario that has just ended (time limit, compose finished, terminate, terminate when) has
+            # stopped its sub-scenarios: their recorded expressions are no longer evaluated in this step
+            if term is not None and term != "terminate simulation":
+                for sub in self.running_subs:
+                    sub.running = False
             # 2. record
             if P.get("record"):
                 self.ev("record")
